@@ -44,6 +44,9 @@ BoardCallsSmall ==
   {C("var_write_int32", <<v, i>>, "") : v \in {0, -1, 255, 256, -16909060, 2147483647}, i \in {0, 2, 28}} \cup {C("var_read_int32", <<i>>, "") : i \in {0, 2, 28}}
   \cup {C("var_write", <<200, 3>>, ""), C("write_nickname", <<>>, "Axi"), C("query_nickname", <<>>, "")}
 MotorCalls == {C("motors_enable", <<r1, r2>>, "") : r1 \in (-1)..6, r2 \in (-1)..6} \cup {C("motors_disable", <<>>, ""), C("motors_query_enabled", <<>>, "")}
+\* 2-call motor histories affordable on every change: one state the object could wrongly remember across calls, then a request that depends on it
+MotorCallsFew == {C("motors_enable", <<r1, r2>>, "") : r1 \in {0, 1, 3, 5}, r2 \in {0, 1, 3, 5}} \cup {C("motors_disable", <<>>, ""), C("motors_query_enabled", <<>>, "")}
+BoardsMotorFew == {[Board0 EXCEPT !.m1 = a, !.m2 = b, !.res = 2] : a \in BOOLEAN, b \in BOOLEAN}
 MinVer302 == <<3, 0, 2>>
 Burst3 == {0, 1, 25, 26}
 Burst2 == {0, 26}
